@@ -15,6 +15,7 @@ runs (per-stage in/out streams from `-I`), not proved.
 import AiuVerif.Model.Conserve
 import AiuVerif.Props.C03
 import AiuVerif.Gen.Sites
+import AiuVerif.Gen.Returns
 import AiuVerif.Lemmas.Sort
 import AiuVerif.Props.C04
 import AiuVerif.Props.C13
@@ -108,6 +109,63 @@ theorem all_pass_nothing_lost (uid : α → Option Nat) (p : List (RS α))
   | cons st rest ih =>
     simp only [runSpec, List.foldl_cons] at ih ⊢
     exact (ih (fun s hs => hp s (List.mem_cons_of_mem _ hs)) _).trans (hp st (List.mem_cons_self ..) input)
+
+/-! ### stages that are pass class by construction
+
+A callback whose every `return` statement is `[event]` (its own first parameter, never
+re-assigned) hands each event it receives to the next stage exactly once; whatever its context
+emits at drain is synthesized (carries no input-slice uid).  `perEvent_pass` is the model-level
+fact; `syntactic_pass_sites` re-decides on the return shapes GENERATED from the source of every
+callback that the stages listed in `syntacticPass` still have that form — an added `return []`
+branch in any of them breaks the obligation. -/
+
+/-- a stage that returns exactly one event per event, with the same slice identity, and whose
+drain only emits events without slice identity -/
+def PerEvent (uid : α → Option Nat) (st : RS α) : Prop :=
+  (∀ s x, ∃ y, (st.step s x).2 = [y] ∧ uid y = uid x) ∧ (∀ s, ∀ y ∈ st.drain s, uid y = none)
+
+theorem perEvent_feed1 {uid : α → Option Nat} {st : RS α} (h : PerEvent uid st) (xs : List α) :
+    sliceUids uid (feed1 st xs).2 = sliceUids uid xs ∧ PerEvent uid (feed1 st xs).1 := by
+  induction xs generalizing st with
+  | nil => exact ⟨rfl, h⟩
+  | cons x xs ih =>
+    obtain ⟨y, hy, hu⟩ := h.1 st.s x
+    have h' : PerEvent uid { st with s := (st.step st.s x).1 } := h
+    obtain ⟨i1, i2⟩ := ih h'
+    refine ⟨?_, by simpa [feed1] using i2⟩
+    simp only [feed1, hy, List.singleton_append]
+    simp only [sliceUids, List.filterMap_cons] at i1 ⊢
+    rw [hu]
+    cases uid x <;> simp [i1]
+
+/-- **Per-event stages are pass class.** -/
+theorem perEvent_pass (uid : α → Option Nat) (st : RS α) (h : PerEvent uid st) : PassClass uid st := by
+  intro xs
+  obtain ⟨h1, h2⟩ := perEvent_feed1 h xs
+  have hd : sliceUids uid ((feed1 st xs).1.drain (feed1 st xs).1.s) = [] := by
+    simp only [sliceUids, List.filterMap_eq_nil_iff]
+    exact fun y hy => h2.2 _ y hy
+  simp only [batch, sliceUids, List.filterMap_append] at *
+  rw [h1, hd]
+  simp
+
+/-- the registered callbacks claimed to be per-event maps (all of class pass / out of domain) -/
+def syntacticPass : List String :=
+  ["drop_timestamp_reversed_events", "frequency_align_collect", "normalize_phase2",
+   "remove_ids_from_name", "map_tid_to_range", "cycle_count_to_wallclock",
+   "tighten_hts_by_instr_type", "recombine_cpu_events", "assert_ts_sequence",
+   "detect_partial_overlap_tids", "collect_iteration_stats", "analyze_power_statistics",
+   "compute_utilization_fingerprints", "communication_event_collection",
+   "assert_global_ts_sequence", "launch_flow_collect", "event_categorizer",
+   "cleanup_copy_of_device_ts", "cycle_count_conversion_cleanup", "calculate_stats_v2"]
+
+/-- every one of them still has `[event]` as its only return shape and never re-assigns `event` -/
+theorem syntactic_pass_sites :
+    ∀ n ∈ syntacticPass, Gen.returns.lookup n = some (["event"], false) := by decide +kernel
+
+/-- … and none of them is classified as a filter -/
+theorem syntactic_pass_classes :
+    ∀ n ∈ syntacticPass, classOf n = some .pass ∨ classOf n = some .outOfDomain := by decide +kernel
 
 /-! ### the generated site list -/
 
